@@ -16,3 +16,20 @@ def lemma_sign_cancels(m):
     """P = prefix sums of x(c)*b(c), Pn = prefix sums of (-x(c))*(-b(c))  =>  theta - Pn(m) = theta - P(m)"""
     use_sum_ext(m)
     return 0
+
+
+def lemma_counts_agree():
+    """two orderings of one joint sample, no tie at the cut of the first: a model's draws among the n_min smallest are counted equally
+    (Claims A and B: chosen in one ordering <=> chosen in the other; then two injections between the counted sets)"""
+    chosen_stays_chosen(True)
+    chosen_stays_chosen(False)
+    count_le(True)
+    count_le(False)
+    return 0
+
+
+def lemma_permuted_models(models, priors, permuted, permuted_priors):
+    """two calls of the real compare_models (bound in the environment to the instrumented function read from the tree)"""
+    r1 = compare_models(models, priors)
+    r2 = compare_models(permuted, permuted_priors)
+    return (r1, r2)
